@@ -1,23 +1,79 @@
-(* ComposeJwe — composition layer, JWE side (START; proofs in proofs/ComposeJwe.v).
-   The JWE pipeline model (model/Jwe*.v, subject of C02 / C04 / C08) takes the zip
-   step and the header check as oracle fields o_inflate / o_check_header.  For
-   every oracle record whose fields are the C17 / C15 models:
-     - JWERegistry.get_zip of the pipeline model = C17's get_zip (names and allow-list
-       translated from code points to Coq strings);
-     - the zip step of _perform_decrypt is C17's decompress behind that gate;
-     - every recipient _perform_decrypt got past satisfies C15's header_ok_jwe
-       (consuming side: check_more = true).
-   Not yet composed: C05 / C06 / C14 / C18 against the JWE pipeline (key resolution is
-   outside model/JweMsg.v: "key resolution belongs to C06 / C14"), the encrypting side. *)
-From Coq Require Import String List NArith Bool.
-From Model Require Import Base PyVal TableTypes.
-From Model Require Import JweMsg.
-From Model Require C17Zip C15Registry C15Spec.
+(* ComposeJwe — composition layer, JWE side.  Only statements; proofs are in
+   proofs/ComposeJwe.v (step 1), ComposeJweEq.v, ComposeJwePipe.v, ComposeJweC18.v,
+   ComposeJweJwt.v; translations in model/ComposeJweDefs.v (and ComposeDefs.v).
+
+   The JWE pipeline model (model/JweBase.v, JweCrypto.v, JweMsg.v, JweKeys.v; subject of
+   C02 / C04 / C08) re-models functions of joserfc that C05 / C06 / C14 / C15 / C17 / C18
+   model on their own, and takes two of them as oracle fields (o_check_header: C15,
+   o_inflate / o_deflate: C17).
+     Part 1  the copies are equal, for all inputs, up to the stated translation
+     Part 2  the per-property characterisations as theorems about the JWE entry points
+     Part 3  C09's transport contract for the JWE transport, from C04's wire round trip
+   Where two models differ the statement carries the side condition and a [*_differs]
+   theorem exhibits the excluded input. *)
+From Coq Require Import String List NArith ZArith Bool Lia.
+From Model Require Import Base PyVal TableTypes ComposeDefs.
+From Model Require Import JweKeys ComposeJweDefs.
+From Model Require C05Model C06Model C06Spec C14KeySet C14Spec C15Registry C15Spec C17Zip C18Model C09Jwt C09Spec.
 From Gen Require Import Tables.
+From Proofs Require C04Proofs C04Multi.
 From Proofs Require Import ComposeJwe.
+From Proofs Require ComposeJweEq ComposeJwePipe ComposeJweC18 ComposeJweJwt.
 Import ListNotations.
 Open Scope N_scope.
 
+(* ================================================================== *)
+(* Part 1 — equalities                                                  *)
+(* ================================================================== *)
+
+(* ---- JWERegistry.get_alg / get_enc / get_zip : JweMsg.v vs C05Model.v ---- *)
+(* the JWE pipeline model is the process state after the drafts are registered (w0_drafts) *)
+Theorem compose_jwe_eq_gates : forall g v,
+  get_alg g v = C05Model.jwe_get_alg C05Model.w0_drafts (allowed_pv (g_allowed g)) v /\
+  get_enc g v = C05Model.jwe_get_enc C05Model.w0_drafts (allowed_pv (g_allowed g)) v /\
+  get_zip g v = C05Model.jwe_get_zip C05Model.w0_drafts (allowed_pv (g_allowed g)) v.
+Proof.
+  exact (fun g v => conj (ComposeJweEq.jwe_get_alg_eq g v)
+                         (conj (ComposeJweEq.jwe_get_enc_eq g v) (ComposeJweEq.jwe_get_zip_eq g v))).
+Qed.
+
+(* registry selection of jwe.py (`if algorithms:` overrides registry=; default registry otherwise) *)
+Theorem compose_jwe_eq_registry_selection : forall algs reg,
+  C05Model.jwe_select C05Model.w0_drafts (allowed_pv algs) (option_map allowed_pv reg)
+  = allowed_pv (jwe_sel algs reg).
+Proof. exact ComposeJweEq.jwe_select_eq. Qed.
+
+Theorem compose_jwe_eq_gates_selected : forall algs reg v vall,
+  let g := {| g_allowed := jwe_sel algs reg; g_verify_all := vall |} in
+  let sel := C05Model.jwe_select C05Model.w0_drafts (allowed_pv algs) (option_map allowed_pv reg) in
+  get_alg g v = C05Model.jwe_get_alg C05Model.w0_drafts sel v /\
+  get_enc g v = C05Model.jwe_get_enc C05Model.w0_drafts sel v /\
+  get_zip g v = C05Model.jwe_get_zip C05Model.w0_drafts sel v.
+Proof. exact ComposeJweEq.jwe_select_gate_eq. Qed.
+
+(* the standard tables (state after import, w0): whatever its gate accepts, the drafts
+   state accepts with the same row; both recommended lists are the same list *)
+Theorem compose_jwe_gates_standard_to_drafts : forall a n,
+  (forall m, C05Model.jwe_get_alg C05Model.w0 (C05Model.pv_of_allowed a) (PStr n) = Ok m ->
+             C05Model.jwe_get_alg C05Model.w0_drafts (C05Model.pv_of_allowed a) (PStr n) = Ok m) /\
+  (forall m, C05Model.jwe_get_enc C05Model.w0 (C05Model.pv_of_allowed a) (PStr n) = Ok m ->
+             C05Model.jwe_get_enc C05Model.w0_drafts (C05Model.pv_of_allowed a) (PStr n) = Ok m) /\
+  (forall m, C05Model.jwe_get_zip C05Model.w0 (C05Model.pv_of_allowed a) (PStr n) = Ok m ->
+             C05Model.jwe_get_zip C05Model.w0_drafts (C05Model.pv_of_allowed a) (PStr n) = Ok m).
+Proof. exact ComposeJweEq.jwe_gate_standard_to_drafts. Qed.
+
+Example compose_jwe_ex_gates :
+  (exists a, get_alg {| g_allowed := None; g_verify_all := false |} (PStr (asc "dir")) = Ok a) /\
+  get_alg {| g_allowed := None; g_verify_all := false |} (PStr (asc "RSA1_5")) = Err (EJose UnsupportedAlgorithmError) /\
+  (exists a, get_alg {| g_allowed := jwe_sel (Some [asc "RSA1_5"]) (Some None); g_verify_all := false |}
+               (PStr (asc "RSA1_5")) = Ok a) /\
+  (exists m, C05Model.jwe_get_enc C05Model.w0 (C05Model.pv_of_allowed None) (PStr (asc "A128GCM")) = Ok m).
+Proof.
+  split; [eexists; vm_compute; reflexivity|]. split; [vm_compute; reflexivity|].
+  split; eexists; vm_compute; reflexivity.
+Qed.
+
+(* (step 1) the same gate against C17's copy of get_zip *)
 Theorem compose_jwe_eq_get_zip : forall verify_all allowed n,
   runit (get_zip {| g_allowed := option_map (map asc) allowed; g_verify_all := verify_all |} (PStr (asc n)))
   = C17Zip.get_zip allowed n.
@@ -29,11 +85,133 @@ Example compose_jwe_ex_get_zip :
   runit (get_zip {| g_allowed := None; g_verify_all := false |} (PStr (asc "GZ"))) = Err (EJose UnsupportedAlgorithmError).
 Proof. repeat split; vm_compute; reflexivity. Qed.
 
-Section ComposeJwe.
+(* ---- Recipient.headers(): JweCrypto.v vs C15 merge_parts vs C14 headers ---- *)
+(* protected < unprotected (JSON only) < per-recipient; members that are dicts or absent *)
+Theorem compose_jwe_headers_merge : forall s prot u h,
+  headers s prot (optd u) (optd h) = Ok (C15Registry.merge_parts (ser_parts s prot u h)).
+Proof. exact ComposeJweEq.headers_merge. Qed.
+
+(* C14's carrier: equal for JSON; for compact C14 reads the protected dict itself, JweCrypto a
+   copy made by update(): equal for dicts with unique member names *)
+Theorem compose_jwe_guest_headers : forall s prot u h,
+  (s = Compact -> h = None /\ keys_unique (dkeys prot) = true) ->
+  C14KeySet.headers (guest_of s prot u h) = C15Registry.merge_parts (ser_parts s prot u h).
+Proof. exact ComposeJweEq.guest_headers. Qed.
+
+Example compose_jwe_ex_headers :
+  headers General [(s_ "enc", PStr (asc "A128GCM")); (s_ "kid", PStr (asc "p"))]
+          (PDict [(s_ "kid", PStr (asc "u"))]) (PDict [(s_ "kid", PStr (asc "r")); (s_ "alg", PStr (asc "dir"))])
+  = Ok [(s_ "enc", PStr (asc "A128GCM")); (s_ "kid", PStr (asc "r")); (s_ "alg", PStr (asc "dir"))].
+Proof. vm_compute. reflexivity. Qed.
+
+(* ---- KeySet.get_by_kid / guess_key / _guess_sender_key : JweKeys.v vs C14KeySet.v ---- *)
+(* [kk_of mat use]: a C14 key as the JWE key resolution sees it (kid member = C14's kid) *)
+Theorem compose_jwe_eq_get_by_kid : forall mat use ks kid,
+  JweKeys.get_by_kid (map (kk_of mat use) ks) kid = rmap (kk_of mat use) (C14KeySet.get_by_kid ks kid).
+Proof. exact ComposeJweEq.jwe_get_by_kid_eq. Qed.
+
+Theorem compose_jwe_eq_guess_key : forall mat use tbl ch src x idx s prot u h,
+  (s = Compact -> h = None /\ keys_unique (dkeys prot) = true) ->
+  ksrc0_of mat use src = Some x ->
+  JweKeys.guess_key (KPlain x) idx (headers s prot (optd u) (optd h)) =
+  rmap (fun kg => kk_of mat use (fst kg))
+       (C14KeySet.guess_key tbl ch (C14KeySet.KFDirect src) (guest_of s prot u h) false).
+Proof. exact ComposeJweEq.jwe_guess_key_eq. Qed.
+
+(* C14 resolves the sender key, JweKeys additionally applies check_use("enc") to it *)
+Theorem compose_jwe_eq_guess_sender : forall mat use tbl ch sk s prot u h,
+  (s = Compact -> h = None /\ keys_unique (dkeys prot) = true) ->
+  guess_sender (ComposeJweEq.sksrc0_of mat use sk) (headers s prot (optd u) (optd h)) =
+  do k <- rmap (fun kg => kk_of mat use (fst kg))
+               (C14KeySet.guess_sender_key tbl ch sk (guest_of s prot u h) false);
+  do _ <- check_use_enc k; Ok k.
+Proof. exact ComposeJweEq.jwe_guess_sender_eq. Qed.
+
+Theorem compose_jwe_eq_sender_given : forall mat use o,
+  JweKeys.sender_given (option_map (ComposeJweEq.sksrc0_of mat use) o)
+  = option_map (ComposeJweEq.sksrc0_of mat use) (C14KeySet.sender_given o).
+Proof. exact ComposeJweEq.jwe_sender_given_eq. Qed.
+
+(* ---- key gates : JweKeys.v / JweCrypto.v vs C06Model.v ---- *)
+(* [krel k use k6]: same type, curve, private flag, oct size; the JWE model has no key_ops / alg *)
+Theorem compose_jwe_eq_check_use : forall kk k6,
+  (C06Model.k_use k6 = Some (kk_use kk) -> check_use_enc kk = C06Model.check_use "enc" k6) /\
+  (C06Model.k_use k6 = None -> kk_use kk = PNone -> check_use_enc kk = C06Model.check_use "enc" k6).
+Proof. exact (fun kk k6 => conj (ComposeJweEq.jwe_check_use_eq kk k6) (ComposeJweEq.jwe_check_use_eq_absent kk k6)). Qed.
+
+Theorem compose_jwe_eq_check_key_type : forall a k use k6, krel k use k6 ->
+  JweCrypto.check_key_type a k = C06Model.jwe_check_key_type a k6.
+Proof. exact ComposeJweEq.jwe_check_key_type_eq. Qed.
+
+Theorem compose_jwe_eq_check_op_key : forall a k use k6 sz, krel k use k6 ->
+  C06Model.k_kty k6 = C06Model.KOct -> ea_key_size a = Some sz ->
+  JweCrypto.check_op_key (key_size_of a) (k_id k) = C06Model.check_op_key a (C06Model.native_of k6 false).
+Proof. exact ComposeJweEq.jwe_check_op_key_eq. Qed.
+
+(* without a declared key size the two differ on the empty key; /repo compares
+   len(op_key)*8 != None, which is always true: C06 is right, JweCrypto.key_size_of (None -> 0)
+   is wrong there.  Unreachable: every wrapping / RSA row of /repo declares a size *)
+Theorem compose_jwe_check_op_key_differs :
+  let a := {| ea_name := "X"; ea_family := "AESKW"; ea_direct := false; ea_tag_aware := false;
+              ea_key_types := ["oct"%string]; ea_key_size := None; ea_recommended := false; ea_more := [];
+              ea_wrap := ""; ea_hash := ""; ea_p2c := 0; ea_pad := "" |} in
+  JweCrypto.check_op_key (key_size_of a) [] = Ok tt /\
+  C06Model.check_op_key a (C06Model.NBytes 0) = Err (EJose InvalidKeyLengthError) /\
+  forallb (fun r => if String.eqb (ea_family r) "AESKW" || String.eqb (ea_family r) "AESGCMKW"
+                       || String.eqb (ea_family r) "PBES2" || String.eqb (ea_family r) "RSA"
+                    then match ea_key_size r with Some _ => true | None => false end else true)
+          jwe_alg_table_drafts = true.
+Proof. exact ComposeJweEq.jwe_check_op_key_differs. Qed.
+
+Theorem compose_jwe_eq_rsa_size : forall a priv bits sz, ea_key_size a = Some sz ->
+  (if bits <? key_size_of a then Err (EJose InvalidKeyLengthError) else Ok tt) =
+  C06Model.rsa_size_gate a (C06Model.NRsa priv bits).
+Proof. exact ComposeJweEq.jwe_rsa_size_eq. Qed.
+
+Theorem compose_jwe_eq_check_enc_1pu : forall a e, JweCrypto.check_enc_1pu a e = C06Model.check_enc_1pu a e.
+Proof. exact ComposeJweEq.jwe_check_enc_1pu_eq. Qed.
+
+(* exchange_derive_key: JweCrypto.exchange = its curve gate, then the ECDH primitive; the gate is
+   C06's exchange_derive_key for the key types that have the method *)
+Theorem compose_jwe_eq_exchange_gate : forall O self us s6 other uo o6,
+  krel self us s6 -> krel other uo o6 ->
+  C06Model.k_kty s6 = C06Model.KEc \/ C06Model.k_kty s6 = C06Model.KOkp ->
+  exchange O self other =
+    (if exch_gate self other then o_ecdh O (k_id self) (k_id other) else Err (EJose InvalidExchangeKeyError)) /\
+  C06Model.exchange_derive_key s6 o6 =
+    (if exch_gate self other then Ok tt else Err (EJose InvalidExchangeKeyError)).
+Proof.
+  exact (fun O self us s6 other uo o6 RS RO KS =>
+           conj (ComposeJweEq.exchange_unfold O self other)
+                (ComposeJweEq.jwe_exchange_gate_eq self us s6 other uo o6 RS RO KS)).
+Qed.
+
+(* an oct / RSA key object has no exchange_derive_key: AttributeError in C06 (and /repo),
+   InvalidExchangeKeyError in JweCrypto.exchange; unreachable (check_key_type comes first) *)
+Theorem compose_jwe_exchange_differs : forall O,
+  let self := {| k_kty := s_ "oct"; k_crv := []; k_priv := true; k_id := [1] |} in
+  let s6 := {| C06Model.k_kty := C06Model.KOct; C06Model.k_crv := ""; C06Model.k_bits := 8;
+               C06Model.k_priv := true; C06Model.k_use := None; C06Model.k_ops := None; C06Model.k_alg := None |} in
+  exchange O self self = Err (EJose InvalidExchangeKeyError) /\
+  C06Model.exchange_derive_key s6 s6 = Err EAttr.
+Proof. exact ComposeJweEq.jwe_exchange_differs. Qed.
+
+Example compose_jwe_ex_krel :
+  krel {| k_kty := s_ "oct"; k_crv := []; k_priv := true; k_id := [1; 2] |} (PStr (s_ "enc"))
+       {| C06Model.k_kty := C06Model.KOct; C06Model.k_crv := ""; C06Model.k_bits := 16;
+          C06Model.k_priv := true; C06Model.k_use := Some (PStr (s_ "enc")); C06Model.k_ops := None;
+          C06Model.k_alg := None |}.
+Proof. constructor; try reflexivity. Qed.
+
+(* ---- the zip step : JweMsg.v vs C17Zip.v ---- *)
+Section ComposeJweZip.
   Variable O : oracles.
   Variable zdec : C17Zip.zoracle.
+  Variable zcomp : bytes -> bytes.
   Hypothesis inflate_is_c17 : forall x, o_inflate O x = C17Zip.decompress zdec x.
+  Hypothesis deflate_is_zlib : forall m, o_deflate O m = Ok (zcomp m).
 
+  (* (step 1) decrypt side *)
   Theorem compose_jwe_unzip_c17 : forall g prot m,
     unzip O g prot m =
     if dmem prot (s_ "zip") then do _ <- get_zip g (hget prot "zip"); C17Zip.decompress zdec m else Ok m.
@@ -48,24 +226,341 @@ Section ComposeJwe.
     end.
   Proof. exact (unzip_c17_named O zdec inflate_is_c17). Qed.
 
-  Variable tbl : list jwe_alg_row.
-  Variable recommended : list string.
-  Variable allowed : option (list string).
-  Variable reg : list hparam.
-  Variable strict : bool.
-  Hypothesis check_header_is_c15 : forall hs cm,
-    o_check_header O (PDict hs) cm = C15Registry.jwe_check_header tbl recommended allowed reg strict hs cm.
+  (* encrypt side: data = zlib.compress(s); return data[2:-4] *)
+  Theorem compose_jwe_zip_compress_c17 : forall m, zip_compress O m = Ok (C17Zip.compress zcomp m).
+  Proof. exact (ComposeJweEq.zip_compress_c17 O zcomp deflate_is_zlib). Qed.
 
-  Theorem compose_c15_jwe_decrypt : forall g o m,
-    perform_decrypt O g o = Ok m ->
-    Forall (recipient_ok tbl recommended allowed reg strict o) (j_recips o).
-  Proof. exact (perform_decrypt_checked O tbl recommended allowed reg strict check_header_is_c15). Qed.
-End ComposeJwe.
+  Theorem compose_jwe_zip_plain_c17 : forall g prot m,
+    zip_plain O g prot m =
+    if dmem prot (s_ "zip") then do _ <- get_zip g (hget prot "zip"); Ok (C17Zip.compress zcomp m) else Ok m.
+  Proof. exact (ComposeJweEq.zip_plain_c17 O zcomp deflate_is_zlib). Qed.
+End ComposeJweZip.
 
 Example compose_jwe_ex_zip_member : dget [(s_ "zip", PStr (asc "DEF"))] (s_ "zip") = Some (PStr (asc "DEF")).
 Proof. reflexivity. Qed.
 
+(* ---- C18: the row predicates and table lookups are the same ---- *)
+Theorem compose_c18_eq_predicates : forall a f n,
+  C18Model.fam a f = fam_is (ea_family a) f /\
+  C18Model.is_agreement a = JweCrypto.is_agreement a /\
+  C18Model.find_alg jwe_alg_table_drafts n = JweMsg.find_alg (asc n) /\
+  C18Model.find_enc jwe_enc_table_drafts n = JweMsg.find_enc (asc n).
+Proof.
+  exact (fun a f n => conj (ComposeJweC18.fam_eq a f) (conj (ComposeJweC18.is_agreement_eq a)
+                      (conj (ComposeJweC18.find_alg_eq n) (ComposeJweC18.find_enc_eq n)))).
+Qed.
+
+(* ================================================================== *)
+(* Part 2 — the characterisations, on the JWE entry points              *)
+(* ================================================================== *)
+Section ComposeJwePipeline.
+  Variable O : oracles.
+
+  Notation loop_ok := (ComposeJwePipe.loop_ok O).
+  Notation pre_ok := (ComposeJwePipe.pre_ok O).
+
+  (* what every accepting decryption / producing run did (no hypothesis on O) *)
+  Theorem compose_jwe_decrypt_inv : forall g o m,
+    perform_decrypt O g o = Ok m ->
+    exists encv e cek aad msg,
+      hitem (j_prot o) "enc" = Ok encv /\ get_enc g encv = Ok e /\ check_iv e (j_iv o) = Ok tt /\
+      recip_loop O g e o (j_recips o) [] = Ok [cek] /\ lenN cek * 8 = ee_cek_size e /\
+      enc_decrypt O e (j_ct o) (j_tag o) cek (j_iv o) aad = Ok msg /\
+      unzip O g (j_prot o) msg = Ok m /\
+      Forall (loop_ok g o) (j_recips o).
+  Proof. exact (ComposeJwePipe.perform_decrypt_inv O). Qed.
+
+  Theorem compose_jwe_encrypt_inv : forall g o d x,
+    perform_encrypt O g o d = Ok x ->
+    exists encv e m,
+      hitem (e_prot o) "enc" = Ok encv /\ get_enc g encv = Ok e /\
+      zip_plain O g (x_prot x) (e_plain o) = Ok m /\
+      x_iv x = d_civ d /\
+      enc_encrypt O e m (x_cek x) (x_iv x) (x_aadseg x) = Ok (x_ct x, x_tag x) /\
+      Forall (pre_ok g (e_ser o) (e_unprot o)) (e_recips o).
+  Proof. exact (ComposeJwePipe.perform_encrypt_inv O). Qed.
+
+  (* the entry points of jwe.py with key resolution: what was attached to each recipient *)
+  Theorem compose_jwe_decrypt_compact_k_inv : forall g value src ssrc m o,
+    decrypt_compact_k O g value src ssrc = Ok (m, o) ->
+    exists o0, extract_compact O value {| k_kty := []; k_crv := []; k_priv := false; k_id := [] |} None = Ok o0 /\
+      ComposeJwePipe.attached o0 src ssrc 0 (j_recips o0) (j_recips o) /\ o = set_recips o0 (j_recips o) /\
+      perform_decrypt O g o = Ok m.
+  Proof. exact (ComposeJwePipe.decrypt_compact_k_inv O). Qed.
+
+  Theorem compose_jwe_decrypt_json_k_inv : forall g data src ssrc m o,
+    decrypt_json_k O g data src ssrc = Ok (m, o) ->
+    exists o0, extract_json O data [] {| k_kty := []; k_crv := []; k_priv := false; k_id := [] |} None = Ok o0 /\
+      ComposeJwePipe.attached o0 src ssrc 0 (j_recips o0) (j_recips o) /\ o = set_recips o0 (j_recips o) /\
+      perform_decrypt O g o = Ok m.
+  Proof. exact (ComposeJwePipe.decrypt_json_k_inv O). Qed.
+
+  (* ---- C15 ---- *)
+  Section C15.
+    Variable tbl : list jwe_alg_row.
+    Variable recommended : list string.
+    Variable allowed : option (list string).
+    Variable reg : list hparam.
+    Variable strict : bool.
+    Hypothesis check_header_is_c15 : forall hs cm,
+      o_check_header O (PDict hs) cm = C15Registry.jwe_check_header tbl recommended allowed reg strict hs cm.
+    Notation hok := (C15Spec.header_ok_jwe tbl recommended allowed reg strict).
+
+    (* (step 1) *)
+    Theorem compose_c15_jwe_decrypt : forall g o m,
+      perform_decrypt O g o = Ok m ->
+      Forall (recipient_ok tbl recommended allowed reg strict o) (j_recips o).
+    Proof. exact (perform_decrypt_checked O tbl recommended allowed reg strict check_header_is_c15). Qed.
+
+    (* every recipient's merged header in C15's merge order, consuming side (check_more = true) *)
+    Theorem compose_c15_jwe_decrypt_merged : forall g o m u,
+      perform_decrypt O g o = Ok m -> j_unprot o = optd u ->
+      Forall (fun r => forall h, r_header r = optd h ->
+                hok (C15Registry.merge_parts (ser_parts (j_ser o) (j_prot o) u h)) true = true) (j_recips o).
+    Proof. exact (ComposeJwePipe.c15_decrypt_merged O tbl recommended allowed reg strict check_header_is_c15). Qed.
+
+    (* producing side (check_more = false): every recipient, with the protected header as it is
+       when that recipient is processed *)
+    Theorem compose_c15_jwe_encrypt : forall g o d x,
+      perform_encrypt O g o d = Ok x ->
+      Forall (fun r => exists prot hs, headers (e_ser o) prot (e_unprot o) (r_header r) = Ok hs /\
+                                       hok hs false = true) (e_recips o).
+    Proof. exact (ComposeJwePipe.c15_encrypt O tbl recommended allowed reg strict check_header_is_c15). Qed.
+  End C15.
+
+  (* ---- C05: enc, every recipient's alg, and zip are registered names of the effective
+          allow-list ---- *)
+  Theorem compose_c05_jwe_decrypt : forall g o m,
+    perform_decrypt O g o = Ok m ->
+    (exists n e, hitem (j_prot o) "enc" = Ok (PStr n) /\
+                 C05Model.find_row ee_name jwe_enc_table_drafts n = Some e /\ ComposeJwePipe.listed g n) /\
+    Forall (fun r => exists hs, headers (j_ser o) (j_prot o) (j_unprot o) (r_header r) = Ok hs /\
+                                ComposeJwePipe.alg_listed g hs) (j_recips o) /\
+    (dmem (j_prot o) (s_ "zip") = true ->
+     exists n z, hget (j_prot o) "zip" = PStr n /\
+                 C05Model.find_row ez_name jwe_zip_table_drafts n = Some z /\ ComposeJwePipe.listed g n).
+  Proof. exact (ComposeJwePipe.c05_decrypt O). Qed.
+
+  Theorem compose_c05_jwe_encrypt : forall g o d x,
+    perform_encrypt O g o d = Ok x ->
+    (exists n e, hitem (e_prot o) "enc" = Ok (PStr n) /\
+                 C05Model.find_row ee_name jwe_enc_table_drafts n = Some e /\ ComposeJwePipe.listed g n) /\
+    Forall (fun r => exists prot hs, headers (e_ser o) prot (e_unprot o) (r_header r) = Ok hs /\
+                                     ComposeJwePipe.alg_listed g hs) (e_recips o) /\
+    (dmem (x_prot x) (s_ "zip") = true ->
+     exists n z, hget (x_prot x) "zip" = PStr n /\
+                 C05Model.find_row ez_name jwe_zip_table_drafts n = Some z /\ ComposeJwePipe.listed g n).
+  Proof. exact (ComposeJwePipe.c05_encrypt O). Qed.
+
+  (* ---- C17: with "zip" in the protected header the plaintext is bounded ---- *)
+  Theorem compose_c17_decrypt_bound : forall zdec,
+    (forall x, o_inflate O x = C17Zip.decompress zdec x) ->
+    forall g o m, perform_decrypt O g o = Ok m -> dmem (j_prot o) (s_ "zip") = true ->
+    C17Zip.blen m <= 256000.
+  Proof. exact (ComposeJwePipe.c17_decrypt_bound O). Qed.
+
+  (* ---- C06: every CEK-yielding path of decrypt_recipient passed the key-type gate; an accepted
+          decryption recovered its CEK from some recipient ---- *)
+  Theorem compose_c06_jwe_key_type_gate : forall a e hs r tag cek use k6,
+    krel (r_key r) use k6 -> decrypt_recipient O a e hs r tag = Ok cek ->
+    C06Model.jwe_check_key_type a k6 = Ok tt.
+  Proof. exact (ComposeJwePipe.c06_key_type_gate O). Qed.
+
+  Theorem compose_jwe_cek_from_some_recipient : forall g e o rs ceks out,
+    recip_loop O g e o rs ceks = Ok out -> ceks = [] -> out <> [] ->
+    exists r hs a cek, In r rs /\ ComposeJwePipe.hs_of o r = Ok hs /\
+      decrypt_recipient O a e hs r (j_tag o) = Ok cek /\
+      (exists algv, hitem hs "alg" = Ok algv /\ get_alg g algv = Ok a).
+  Proof. exact (ComposeJwePipe.recip_loop_some O). Qed.
+End ComposeJwePipeline.
+
+(* no allow-list given: only the literals of the property text are usable *)
+Theorem compose_c05_jwe_default : forall g n,
+  g_allowed g = None \/ g_allowed g = Some [] -> ComposeJwePipe.listed g n ->
+  In n (map asc ["RSA-OAEP"; "A128KW"; "A256KW"; "dir"; "ECDH-ES"; "ECDH-ES+A128KW"; "ECDH-ES+A256KW";
+                 "A128CBC-HS256"; "A192CBC-HS384"; "A256CBC-HS512"; "A128GCM"; "A192GCM"; "A256GCM"; "DEF"]%string).
+Proof. exact ComposeJwePipe.listed_default. Qed.
+
+Example compose_c05_jwe_ex_listed :
+  ComposeJwePipe.listed {| g_allowed := None; g_verify_all := false |} (asc "dir") /\
+  ComposeJwePipe.listed {| g_allowed := Some [asc "RSA1_5"]; g_verify_all := false |} (asc "RSA1_5").
+Proof. split; vm_compute; auto 20. Qed.
+
+(* ---- C14: a key attached from a key set is the one C14's Spec names (first key with the
+        merged header's kid; single-key shortcut only without kid); sender key by "skid" ---- *)
+Theorem compose_c14_jwe_named : forall mat use ks idx hs k,
+  guess_key (KPlain (KSet (map (kk_of mat use) ks))) idx hs = Ok k ->
+  exists h k14, hs = Ok h /\ k = kk_of mat use k14 /\
+    C14KeySet.get_by_kid ks (C14KeySet.hget h C14KeySet.s_kid) = Ok k14 /\
+    ((C14KeySet.hget h C14KeySet.s_kid = PNone /\ ks = [k14]) \/
+     C14Spec.first_with ks (C14KeySet.hget h C14KeySet.s_kid) k14).
+Proof. exact ComposeJwePipe.c14_named. Qed.
+
+Theorem compose_c14_jwe_sender_named : forall mat use ks hs sk,
+  guess_sender (KSet (map (kk_of mat use) ks)) hs = Ok sk ->
+  exists h k14, hs = Ok h /\ sk = kk_of mat use k14 /\
+    py_truth (C14KeySet.hget h C14KeySet.s_skid) = true /\
+    C14Spec.first_with ks (C14KeySet.hget h C14KeySet.s_skid) k14.
+Proof. exact ComposeJwePipe.c14_sender_named. Qed.
+
+(* ---- C06: the declared use of every attached recipient / sender key passed C06's gate
+        ([attached] records check_use_enc = Ok tt for each of them) ---- *)
+Theorem compose_c06_jwe_use_gate : forall k k6, C06Model.k_use k6 = Some (kk_use k) ->
+  check_use_enc k = Ok tt -> C06Model.check_use "enc" k6 = Ok tt.
+Proof. exact ComposeJwePipe.c06_use_gate. Qed.
+
+Example compose_c14_jwe_ex_named :
+  let mat := fun _ : C14KeySet.key => {| k_kty := s_ "oct"; k_crv := []; k_priv := true; k_id := [1] |} in
+  let use := fun _ : C14KeySet.key => PNone in
+  let ks := [C14KeySet.mkKey (Some (asc "a")) "oct" 1 []; C14KeySet.mkKey (Some (asc "b")) "oct" 2 []] in
+  exists k, guess_key (KPlain (KSet (map (kk_of mat use) ks))) 0 (Ok [(s_ "kid", PStr (asc "b"))]) = Ok k /\
+            kk_kid k = PStr (asc "b") /\ check_use_enc k = Ok tt.
+Proof. cbv zeta. eexists. split; [vm_compute; reflexivity|]. split; reflexivity. Qed.
+
+(* ---- C18: draw sites and sizes ---- *)
+(* a draw of the size C18 gives (ee_iv_size / 8, ee_cek_size / 8 octets) meets the size premise of
+   C04's round trip (and of Part 3) *)
+Theorem compose_c18_sizes_fit : forall e (iv cek : bytes),
+  In e jwe_enc_table_drafts ->
+  lenN iv = ee_iv_size e / 8 -> lenN cek = ee_cek_size e / 8 ->
+  lenN iv * 8 = ee_iv_size e /\ lenN cek * 8 = ee_cek_size e.
+Proof. exact ComposeJweC18.c18_sizes_fit. Qed.
+
+(* one compact recipient: the JWE model consumes its random inputs exactly at C18's sites
+   (c18_iv, c18_cek, c18_gcmkw_iv, c18_pbes2: same conditions on the same row) and puts them where
+   C18 says the draws end up *)
+Theorem compose_c18_draw_sites : forall O g w p r d x,
+  r_header r = PNone -> perform_encrypt O g (jwe_eobj w p r) d = Ok x ->
+  exists e hs n a,
+    (exists encn, hitem w "enc" = Ok (PStr encn) /\ JweMsg.find_enc encn = Some e) /\
+    headers Compact w PNone PNone = Ok hs /\ hitem hs "alg" = Ok (PStr n) /\ JweMsg.find_alg n = Some a /\
+    x_iv x = d_civ d /\
+    (ea_direct a = false -> x_cek x = d_cek d) /\
+    (C18Model.is_agreement a = false -> ea_direct a = false -> C18Model.fam a "AESGCMKW" = true ->
+       dget (x_prot x) (s_ "iv") = Some (PStr (b64e (d_kwiv (ComposeJweC18.rdraw_of d))))) /\
+    (C18Model.is_agreement a = false -> ea_direct a = false -> C18Model.fam a "PBES2" = true ->
+       (dget w (s_ "p2s") = None ->
+          dget (x_prot x) (s_ "p2s") = Some (PStr (b64e (d_p2s (ComposeJweC18.rdraw_of d))))) /\
+       (forall v, dget w (s_ "p2s") = Some v -> dget (x_prot x) (s_ "p2s") = Some v)) /\
+    (C18Model.is_agreement a = false -> ea_direct a = false ->
+       C18Model.fam a "AESGCMKW" = false -> C18Model.fam a "PBES2" = false -> x_prot x = w).
+Proof. exact ComposeJweC18.jwe_draw_sites. Qed.
+
+Example compose_c18_ex_sizes :
+  exists e, In e jwe_enc_table_drafts /\ ee_name e = "A128GCM"%string /\ ee_iv_size e / 8 = 12 /\ ee_cek_size e / 8 = 16.
+Proof. eexists. split; [right; right; right; left; reflexivity|]. repeat split. Qed.
+
+(* ================================================================== *)
+(* Part 3 — C09 over the JWE transport                                  *)
+(* ================================================================== *)
+(* jwe_tenc = encrypt_compact + the protected-header dict after the call (x_prot);
+   jwe_tdec = decrypt_compact + .headers(), .plaintext *)
+Section ComposeJweJwt.
+  Variable O : oracles.
+  Variable g : registry.
+  Hypothesis C : C04Proofs.contracts O.
+  (* the premises of c04_compact_wire_rt about the oracle record: the consuming-side header check
+     accepts, GCM tags are octets, json.loads inverts json.dumps *)
+  Hypothesis CH : forall hs, o_check_header O (PDict hs) true = Ok tt.
+  Hypothesis BT : forall k iv a m c t, o_gcm_enc O k iv a m = Ok (c, t) -> bytes_ok t = true.
+  Hypothesis JL : forall v t a, o_dumps O v = Ok t -> ascii_enc t = Ok a -> o_loads O a = Ok v.
+
+  (* what perform_encrypt writes into the protected header are NEW members when the header
+     carried no epk / iv / tag ([fresh]); p2s / p2c are only written when absent *)
+  Theorem compose_jwe_x_prot_extends : forall w p r d x,
+    r_header r = PNone -> ComposeJweJwt.fresh w ->
+    perform_encrypt O g (jwe_eobj w p r) d = Ok x -> extends w (x_prot x).
+  Proof. exact (ComposeJweJwt.x_prot_extends O g). Qed.
+
+  (* C09's [transport_rt] at (w, p): [rt_side] = the premises of C04's compact wire round trip
+     (unique member names, recip_ok, IV / CEK inputs of the sizes of enc, produced segments are
+     octets and the final header still names alg and enc) *)
+  Theorem compose_c09_transport_rt_jwe : forall w p r d tok w',
+    ComposeJweJwt.rt_side O g w p r d -> ComposeJweJwt.fresh w ->
+    jwe_tenc O g r d w p = (Ok tok, w') ->
+    jwe_tdec O g (r_key r) (r_sender r) tok = Ok (w', p) /\ extends w w'.
+  Proof. exact (ComposeJweJwt.jwe_transport_rt_at O g C CH BT JL). Qed.
+
+  Variable json_dumps : pv -> res bytes.
+  Variable json_loads : bytes -> res pv.
+  Hypothesis claims_json_rt : forall v b, C09Spec.json_ok v = true -> json_dumps v = Ok b -> json_loads b = Ok v.
+
+  (* jwt.decode (jwt.encode h c key) with a JWE registry, over the JWE model *)
+  Theorem compose_c09_rt_jwe : forall r d h c tok,
+    keys_unique (dkeys h) = true -> C09Spec.claims_ok c = true ->
+    ComposeJweJwt.fresh (C09Jwt.typ_default h) ->
+    (forall p, json_dumps (PDict (match C09Jwt.claims_pv (fst (C09Jwt.convert_keys TablesC09.nd_keys c)) with
+                                  | Some dd => dd | None => [] end)) = Ok p ->
+               ComposeJweJwt.rt_side O g (C09Jwt.typ_default h) p r d) ->
+    C09Jwt.eo_result (C09Jwt.encode json_dumps (jwe_tenc O g r d) h c) = Ok tok ->
+    exists dd extra,
+      C09Jwt.claims_pv (C09Jwt.eo_claims (C09Jwt.encode json_dumps (jwe_tenc O g r d) h c)) = Some dd /\
+      C09Jwt.decode json_loads (jwe_tdec O g (r_key r) (r_sender r)) tok
+        = Ok (C09Spec.spec_header h ++ extra, PDict dd) /\
+      (forall k, dmem (C09Spec.spec_header h) k = true -> dmem extra k = false).
+  Proof. exact (ComposeJweJwt.jwt_rt_jwe O g C CH BT JL json_dumps json_loads claims_json_rt). Qed.
+End ComposeJweJwt.
+
+(* the [fresh] side condition is needed: a header that already carries "epk" (or "iv" / "tag")
+   has that member OVERWRITTEN IN PLACE by add_header, so the dict after the call is not
+   "w followed by new members" (C09's transport_rt); /repo does the same (checked:
+   jwt.encode({"alg":"ECDH-ES","epk":{..},"enc":..}) decodes to header order typ, alg, epk, enc) *)
+Theorem compose_jwe_overwrite_not_extension :
+  let w := [(s_ "alg", PStr (asc "ECDH-ES")); (s_ "epk", PDict []); (s_ "enc", PStr (asc "A128GCM"))] in
+  ~ ComposeJweJwt.fresh w /\
+  ~ extends w (dset w (s_ "epk") (PDict [(s_ "kty", PStr (asc "EC"))])) /\
+  ComposeJweJwt.fresh [(s_ "alg", PStr (asc "ECDH-ES")); (s_ "enc", PStr (asc "A128GCM"))] /\
+  extends [(s_ "alg", PStr (asc "ECDH-ES")); (s_ "enc", PStr (asc "A128GCM"))]
+          (dset [(s_ "alg", PStr (asc "ECDH-ES")); (s_ "enc", PStr (asc "A128GCM"))] (s_ "epk") (PDict [])).
+Proof.
+  cbv zeta. split; [intros (E & _); vm_compute in E; discriminate|].
+  split; [intros (extra & E & _); vm_compute in E; inversion E|].
+  split; [repeat split|]. apply ComposeJweJwt.extends_dset. reflexivity.
+Qed.
+
+Print Assumptions compose_jwe_eq_gates.
+Print Assumptions compose_jwe_eq_registry_selection.
+Print Assumptions compose_jwe_eq_gates_selected.
+Print Assumptions compose_jwe_gates_standard_to_drafts.
 Print Assumptions compose_jwe_eq_get_zip.
+Print Assumptions compose_jwe_headers_merge.
+Print Assumptions compose_jwe_guest_headers.
+Print Assumptions compose_jwe_eq_get_by_kid.
+Print Assumptions compose_jwe_eq_guess_key.
+Print Assumptions compose_jwe_eq_guess_sender.
+Print Assumptions compose_jwe_eq_sender_given.
+Print Assumptions compose_jwe_eq_check_use.
+Print Assumptions compose_jwe_eq_check_key_type.
+Print Assumptions compose_jwe_eq_check_op_key.
+Print Assumptions compose_jwe_check_op_key_differs.
+Print Assumptions compose_jwe_eq_rsa_size.
+Print Assumptions compose_jwe_eq_check_enc_1pu.
+Print Assumptions compose_jwe_eq_exchange_gate.
+Print Assumptions compose_jwe_exchange_differs.
 Print Assumptions compose_jwe_unzip_c17.
 Print Assumptions compose_jwe_unzip_c17_named.
+Print Assumptions compose_jwe_zip_compress_c17.
+Print Assumptions compose_jwe_zip_plain_c17.
+Print Assumptions compose_c18_eq_predicates.
+Print Assumptions compose_jwe_decrypt_inv.
+Print Assumptions compose_jwe_encrypt_inv.
+Print Assumptions compose_jwe_decrypt_compact_k_inv.
+Print Assumptions compose_jwe_decrypt_json_k_inv.
 Print Assumptions compose_c15_jwe_decrypt.
+Print Assumptions compose_c15_jwe_decrypt_merged.
+Print Assumptions compose_c15_jwe_encrypt.
+Print Assumptions compose_c05_jwe_decrypt.
+Print Assumptions compose_c05_jwe_encrypt.
+Print Assumptions compose_c05_jwe_default.
+Print Assumptions compose_c17_decrypt_bound.
+Print Assumptions compose_c06_jwe_key_type_gate.
+Print Assumptions compose_jwe_cek_from_some_recipient.
+Print Assumptions compose_c14_jwe_named.
+Print Assumptions compose_c14_jwe_sender_named.
+Print Assumptions compose_c06_jwe_use_gate.
+Print Assumptions compose_c18_sizes_fit.
+Print Assumptions compose_c18_draw_sites.
+Print Assumptions compose_jwe_x_prot_extends.
+Print Assumptions compose_c09_transport_rt_jwe.
+Print Assumptions compose_c09_rt_jwe.
+Print Assumptions compose_jwe_overwrite_not_extension.
